@@ -215,9 +215,12 @@ def rule_progress(report, prog):
     n += 1
     report.check(okk, 'C08-R3', key(g.qname, 'reads 16 byte per cycle until stop'), g.loc(), 'Type 2 memory read loop changed')
     g = prog.func('nfc.tag.tt1.Type1TagMemoryReader._read_from_tag')
-    okk = any(isinstance(l, ast.While) and norm(l.test) == 'len(self) < stop' and
-              [norm(s) for s in live(l.body)] == ['data = self._tag.read_segment(len(self) >> 7)', 'self._data_from_tag.extend(data)', 'self._data_in_cache.extend(data)']
-              for l in walk_no_nested(g.node))
+    # progress argument: the loop runs while len(self) < stop and every cycle either raises or extends the image by the segment read
+    # (guards that only raise may precede the read)
+    def _t1_cycle(l):
+        body = [st for st in live(l.body) if not (isinstance(st, ast.If) and not st.orelse and isinstance(last_live(st.body), ast.Raise))]
+        return [norm(x) for x in body] == ['data = self._tag.read_segment(len(self) >> 7)', 'self._data_from_tag.extend(data)', 'self._data_in_cache.extend(data)']
+    okk = any(isinstance(l, ast.While) and norm(l.test) == 'len(self) < stop' and _t1_cycle(l) for l in walk_no_nested(g.node))
     rs = prog.func('nfc.tag.tt1.Type1Tag.read_segment')
     okk = okk and any(norm(e) == 'len(rsp) < 129' for e in ast.walk(rs.node) if isinstance(e, ast.Compare)) and bool(find(rs.node, 'return rsp[1:129]'))
     n += 1
@@ -305,6 +308,12 @@ from .c12 import ISODEP_EMPTY_REASON, ISODEP_EMPTY_ANCHORS   # noqa: E402
 triage.add('C08', 'C08-R1', key('struct.error', 'raised in nfc.tag.tt4.Type4Tag.NDEF._read_ndef_data', 'unpack(lfmt, nlen)'), NLEN_REASON, NLEN_ANCHORS)
 
 triage.add('C08', 'C08-R1', key('IndexError', 'raised in nfc.tag.tt4.IsoDepInitiator.exchange', 'data[0] in `while bool(data[0] & 16)`'), ISODEP_EMPTY_REASON, ISODEP_EMPTY_ANCHORS)
+
+
+from .c16 import SEGMENT_REASON, SEGMENT_ANCHORS, APDU_REASON, APDU_ANCHORS   # noqa: E402
+triage.add('C08', 'C08-R1', key('ValueError', 'raised in nfc.tag.tt1.Type1Tag.read_segment', "raise ValueError('invalid segment number')"), SEGMENT_REASON, SEGMENT_ANCHORS)
+triage.add('C08', 'C08-R1', key('ValueError', 'raised in nfc.tag.tt4.Type4Tag.send_apdu', "raise ValueError('unsupported command data length')"), APDU_REASON, APDU_ANCHORS)
+triage.add('C08', 'C08-R1', key('ValueError', 'raised in nfc.tag.tt4.Type4Tag.send_apdu', "raise ValueError('unsupported max response length')"), APDU_REASON, APDU_ANCHORS)
 
 MUTANTS = [
     ('tt2-read-tlv-unguarded', 'nfc.tag.tt2', """                try:
